@@ -1,8 +1,448 @@
 package sym
 
-type storeState struct{}
+import (
+	"go/token"
+	"go/types"
+
+	"golang.org/x/tools/go/ssa"
+
+	"symgo/smt"
+)
+
+// ---------- synthetic dynamic types for model values ----------
+
+var symPkg = types.NewPackage("symgo/model", "model")
+
+func synthType(name string) types.Type {
+	return types.NewNamed(types.NewTypeName(token.NoPos, symPkg, name, nil), types.NewStruct(nil, nil), nil)
+}
+
+var (
+	tyMultiStore = synthType("MultiStore")
+	tyKVStore    = synthType("KVStore")
+	tyIterator   = synthType("Iterator")
+	tyCodec      = synthType("Codec")
+	tyOpaque     = synthType("Opaque")
+)
+
+// ---------- multistore / kv store ----------
+
+type kvEntry struct {
+	key     []*smt.Term
+	val     Value // SliceV (bytes) or *Blob; nil when deleted
+	deleted bool
+}
+
+type kvMap struct {
+	entries []*kvEntry
+}
+
+// Layer is one (cache-)multistore level.
+type Layer struct {
+	parent *Layer
+	stores map[string]*kvMap
+	names  []string
+	id     int
+}
+
+type storeState struct {
+	nlayers int
+}
+
+type StoreRef struct {
+	layer *Layer
+	name  string
+}
+
+type IterV struct {
+	keys [][]*smt.Term
+	vals []Value
+	pos  int
+	open bool
+}
+
+func (it *Interp) newLayer(parent *Layer) *Layer {
+	if it.M.stores == nil {
+		it.M.stores = &storeState{}
+	}
+	it.M.stores.nlayers++
+	return &Layer{parent: parent, stores: map[string]*kvMap{}, id: it.M.stores.nlayers}
+}
+
+func (l *Layer) kv(name string) *kvMap {
+	m, ok := l.stores[name]
+	if !ok {
+		m = &kvMap{}
+		l.stores[name] = m
+		l.names = append(l.names, name)
+	}
+	return m
+}
+
+// keyMatch decides key equality, forking only when it is genuinely symbolic.
+func (it *Interp) keyMatch(a, b []*smt.Term) bool {
+	if len(a) != len(b) {
+		return false
+	}
+	c := it.C
+	eq := c.True
+	for i := range a {
+		if a[i] == b[i] {
+			continue
+		}
+		if a[i].IsConst() && b[i].IsConst() {
+			return false
+		}
+		eq = c.And(eq, c.Eq(a[i], b[i]))
+	}
+	return it.Branch(eq)
+}
+
+// find returns the entry for key in this layer only.
+func (it *Interp) kvFind(m *kvMap, key []*smt.Term) *kvEntry {
+	for i := len(m.entries) - 1; i >= 0; i-- {
+		e := m.entries[i]
+		if it.keyMatch(e.key, key) {
+			return e
+		}
+	}
+	return nil
+}
+
+func (it *Interp) storeGet(s *StoreRef, key []*smt.Term) Value {
+	for l := s.layer; l != nil; l = l.parent {
+		if m, ok := l.stores[s.name]; ok {
+			if e := it.kvFind(m, key); e != nil {
+				if e.deleted {
+					return SliceV{}
+				}
+				return it.copyStoreVal(e.val)
+			}
+		}
+	}
+	return SliceV{}
+}
+
+func (it *Interp) copyStoreVal(v Value) Value {
+	switch x := v.(type) {
+	case SliceV:
+		// hand out a private copy of the bytes
+		return it.mkByteSlice(append([]*smt.Term{}, it.bytesOf(x)...))
+	case *Blob:
+		return x
+	}
+	return v
+}
+
+func (it *Interp) storeSet(s *StoreRef, key []*smt.Term, val Value) {
+	m := s.layer.kv(s.name)
+	var sv Value
+	switch x := val.(type) {
+	case SliceV:
+		if x.O == nil {
+			it.goPanicStr("store", "value is nil")
+		}
+		sv = it.mkByteSlice(append([]*smt.Term{}, it.bytesOf(x)...))
+	case *Blob:
+		sv = x
+	default:
+		it.abort("store.Set of %T", val)
+	}
+	if len(key) == 0 {
+		it.goPanicStr("store", "key is nil or empty")
+	}
+	if e := it.kvFind(m, key); e != nil {
+		e.val, e.deleted = sv, false
+		return
+	}
+	m.entries = append(m.entries, &kvEntry{key: append([]*smt.Term{}, key...), val: sv})
+}
+
+func (it *Interp) storeDelete(s *StoreRef, key []*smt.Term) {
+	m := s.layer.kv(s.name)
+	if e := it.kvFind(m, key); e != nil {
+		if s.layer.parent == nil {
+			// base layer: drop the entry
+			for i, x := range m.entries {
+				if x == e {
+					m.entries = append(m.entries[:i:i], m.entries[i+1:]...)
+					break
+				}
+			}
+			return
+		}
+		e.val, e.deleted = nil, true
+		return
+	}
+	if s.layer.parent != nil {
+		m.entries = append(m.entries, &kvEntry{key: append([]*smt.Term{}, key...), deleted: true})
+	}
+}
+
+// merged returns the live entries visible through the store (top layer wins).
+func (it *Interp) storeMerged(s *StoreRef) []*kvEntry {
+	var layers []*Layer
+	for l := s.layer; l != nil; l = l.parent {
+		layers = append(layers, l)
+	}
+	var out []*kvEntry // includes tombstones until the end
+	for _, l := range layers {
+		m, ok := l.stores[s.name]
+		if !ok {
+			continue
+		}
+		for _, e := range m.entries {
+			shadowed := false
+			for _, o := range out {
+				if it.keyMatch(o.key, e.key) {
+					shadowed = true
+					break
+				}
+			}
+			if !shadowed {
+				out = append(out, e)
+			}
+		}
+	}
+	live := out[:0:0]
+	for _, e := range out {
+		if !e.deleted {
+			live = append(live, e)
+		}
+	}
+	return live
+}
+
+func (it *Interp) storeIterator(s *StoreRef, start, end Value, reverse bool) Value {
+	c := it.C
+	var sb, eb []*smt.Term
+	hasS, hasE := false, false
+	if sv, ok := start.(SliceV); ok && sv.O != nil {
+		sb, hasS = it.bytesOf(sv), true
+	}
+	if ev, ok := end.(SliceV); ok && ev.O != nil {
+		eb, hasE = it.bytesOf(ev), true
+	}
+	var sel []*kvEntry
+	for _, e := range it.storeMerged(s) {
+		in := c.True
+		if hasS {
+			in = c.And(in, c.Not(it.bytesLess(e.key, sb))) // key >= start
+		}
+		if hasE {
+			in = c.And(in, it.bytesLess(e.key, eb)) // key < end
+		}
+		if it.Branch(in) {
+			sel = append(sel, e)
+		}
+	}
+	// insertion sort by key
+	for i := 1; i < len(sel); i++ {
+		for j := i; j > 0; j-- {
+			if !it.Branch(it.bytesLess(sel[j].key, sel[j-1].key)) {
+				break
+			}
+			sel[j], sel[j-1] = sel[j-1], sel[j]
+		}
+	}
+	iv := &IterV{open: true}
+	for _, e := range sel {
+		iv.keys = append(iv.keys, e.key)
+		iv.vals = append(iv.vals, e.val)
+	}
+	if reverse {
+		for i, j := 0, len(iv.keys)-1; i < j; i, j = i+1, j-1 {
+			iv.keys[i], iv.keys[j] = iv.keys[j], iv.keys[i]
+			iv.vals[i], iv.vals[j] = iv.vals[j], iv.vals[i]
+		}
+	}
+	return IfaceV{T: tyIterator, V: iv}
+}
+
+// layerWrite commits a cache layer into its parent.
+func (it *Interp) layerWrite(l *Layer) {
+	if l.parent == nil {
+		return
+	}
+	for _, name := range l.names {
+		m := l.stores[name]
+		ref := &StoreRef{layer: l.parent, name: name}
+		for _, e := range m.entries {
+			if e.deleted {
+				it.storeDelete(ref, e.key)
+			} else {
+				it.storeSet(ref, e.key, e.val)
+			}
+		}
+		m.entries = nil
+	}
+}
+
+func bytesArg(it *Interp, v Value) []*smt.Term {
+	switch x := v.(type) {
+	case SliceV:
+		return it.bytesOf(x)
+	}
+	it.abort("store key of type %T", v)
+	return nil
+}
+
+func init() {
+	invokeHooks = append(invokeHooks, func(it *Interp, iv IfaceV, m *types.Func, a []Value) (Value, bool) {
+		c := it.C
+		switch x := iv.V.(type) {
+		case *Layer:
+			switch m.Name() {
+			case "GetKVStore", "GetStore", "GetCommitKVStore":
+				name := it.storeKeyName(a[0])
+				return IfaceV{T: tyKVStore, V: &StoreRef{layer: x, name: name}}, true
+			case "CacheMultiStore", "CacheWrap":
+				return IfaceV{T: tyMultiStore, V: it.newLayer(x)}, true
+			case "Write":
+				it.layerWrite(x)
+				return nil, true
+			case "TracingEnabled":
+				return c.False, true
+			}
+			it.abort("multistore method %s not modelled", m.Name())
+		case *StoreRef:
+			switch m.Name() {
+			case "Get":
+				return it.storeGet(x, bytesArg(it, a[0])), true
+			case "Has":
+				v := it.storeGet(x, bytesArg(it, a[0]))
+				if s, ok := v.(SliceV); ok && s.O == nil {
+					return c.False, true
+				}
+				return c.True, true
+			case "Set":
+				it.storeSet(x, bytesArg(it, a[0]), a[1])
+				return nil, true
+			case "Delete":
+				it.storeDelete(x, bytesArg(it, a[0]))
+				return nil, true
+			case "Iterator":
+				return it.storeIterator(x, a[0], a[1], false), true
+			case "ReverseIterator":
+				return it.storeIterator(x, a[0], a[1], true), true
+			}
+			it.abort("kvstore method %s not modelled", m.Name())
+		case *IterV:
+			switch m.Name() {
+			case "Valid":
+				return c.BoolConst(x.open && x.pos < len(x.keys)), true
+			case "Next":
+				if x.pos >= len(x.keys) {
+					it.goPanicStr("iterator", "iterator is invalid")
+				}
+				x.pos++
+				return nil, true
+			case "Key":
+				if x.pos >= len(x.keys) {
+					it.goPanicStr("iterator", "iterator is invalid")
+				}
+				return it.mkByteSlice(append([]*smt.Term{}, x.keys[x.pos]...)), true
+			case "Value":
+				if x.pos >= len(x.keys) {
+					it.goPanicStr("iterator", "iterator is invalid")
+				}
+				return it.copyStoreVal(x.vals[x.pos]), true
+			case "Close":
+				x.open = false
+				return IfaceV{}, true
+			case "Error":
+				return IfaceV{}, true
+			}
+			it.abort("iterator method %s not modelled", m.Name())
+		}
+		return nil, false
+	})
+
+	// sdk.Context: the real struct and its real methods are used; only the store access skips the gas wrapper.
+	Register("(github.com/cosmos/cosmos-sdk/types.Context).KVStore", func(it *Interp, fn *ssa.Function, a []Value) Value {
+		ctx := a[0].(*StructV)
+		i := fieldIndex(fn.Signature.Recv().Type(), "ms")
+		ms, ok := ctx.F[i].(IfaceV)
+		if !ok || ms.T == nil {
+			it.goPanicNilDeref()
+		}
+		l, ok := ms.V.(*Layer)
+		if !ok {
+			it.abort("Context.KVStore on a non-model multistore")
+		}
+		return IfaceV{T: tyKVStore, V: &StoreRef{layer: l, name: it.storeKeyName(a[1])}}
+	})
+	Register("(github.com/cosmos/cosmos-sdk/types.Context).TransientStore", func(it *Interp, fn *ssa.Function, a []Value) Value {
+		it.abort("transient stores are not modelled")
+		return nil
+	})
+	Register(VE+"NewMultiStore", func(it *Interp, fn *ssa.Function, a []Value) Value {
+		return IfaceV{T: tyMultiStore, V: it.newLayer(nil)}
+	})
+}
+
+func (it *Interp) storeKeyName(k Value) string {
+	iv, ok := k.(IfaceV)
+	if !ok || iv.T == nil {
+		it.abort("store key is %T", k)
+	}
+	fn := it.L.Prog.LookupMethod(iv.T, nil, "Name")
+	if fn == nil {
+		it.abort("store key without Name()")
+	}
+	s, ok := it.callFn(fn, []Value{iv.V}, nil, 0).(StrV)
+	if !ok || !s.Concrete() {
+		it.abort("store key name is not concrete")
+	}
+	return s.S
+}
 
 func (it *Interp) blobLen(b *Blob) Value {
-	it.abort("len of codec blob not modelled yet")
+	// len(marshal(m)) == 0 iff m is the all-default message
+	d := it.isDefaultTerm(b.V)
+	return it.C.Ite(d, it.C.BVI(0, 64), it.C.BVI(1, 64))
+}
+
+// isDefaultTerm: every leaf of the message value is its zero value.
+func (it *Interp) isDefaultTerm(v Value) *smt.Term {
+	c := it.C
+	switch x := v.(type) {
+	case nil:
+		return c.True
+	case *smt.Term:
+		if x.Sort.K == smt.KBool {
+			return c.Not(x)
+		}
+		return c.Eq(x, c.BVU(0, x.Sort.W))
+	case StrV:
+		return c.BoolConst(x.Len() == 0)
+	case SliceV:
+		return c.BoolConst(x.Len == 0)
+	case PtrV:
+		return c.BoolConst(x.O == nil)
+	case IfaceV:
+		return c.BoolConst(x.T == nil)
+	case *MapObj:
+		return c.BoolConst(x == nil || len(x.Keys) == 0)
+	case FloatV:
+		return c.BoolConst(x == 0)
+	case BigV:
+		return c.Eq(x.T, c.IntI(0))
+	case *StructV:
+		r := c.True
+		for _, f := range x.F {
+			r = c.And(r, it.isDefaultTerm(f))
+		}
+		return r
+	case *ArrayV:
+		r := c.True
+		for _, f := range x.E {
+			r = c.And(r, it.isDefaultTerm(f))
+		}
+		return r
+	case *Blob:
+		return it.isDefaultTerm(x.V)
+	}
+	it.abort("isDefault of %T", v)
 	return nil
 }
